@@ -55,3 +55,8 @@ CHECKS['C12'] = ('model_checking',
   'Every graph with <=3 nodes over 14 kinds (or/and with arbitrary viability/necessity flags, defenses with status 0/0.5/1 and suppress tag), every edge subset, every compromise sequence up to the bound (second attacker present): traversability of every node, the attack surface, the incrementally updated surface vs the recomputed one, defense surface, enabled defenses, and the graph observation before/after every query.',
   'Trusted: the reference definitions copied from the property statement.',
   'DESIGN.md 3/C12')
+CHECKS['C07'] = ('model_checking',
+  'every distinct model content reached by the history search, plus directly built decorated models, x formats x file key orders: save/load round trip compared attribute by attribute',
+  'Every distinct model reached by bounded histories of add/remove asset/association/attacker/entry-point calls (id gaps, explicit/zero/negative ids, renamed assets, duplicate-named association classes, several attackers) and a family of models with YAML-significant/unicode names, non-default defenses, asset and association extras is saved to .json/.yml/.yaml and loaded back (content equality incl. every defense value, extras, entry points; second save identical); every permutation of the asset mapping in a hand-written file and the type-only shorthand must load to the model described.',
+  'Trusted: json, PyYAML, python_jsonschema_objects. Byte layout of files not compared.',
+  'DESIGN.md 3/C07')
